@@ -58,7 +58,8 @@ Fixpoint c03g_heads (step : fc_state -> block -> fc_state) (fc : fc_state) (h : 
   | _, _ => True
   end.
 
-(* FULL STRENGTH for the discovery mode (stated; the proved part is c03_discovery_statement below): the conclusion clauses
+(* FULL STRENGTH for the discovery mode (PROVED: Properties/C03_Disc.c03_discovery, Proofs/C03_DiscFull.v; the earlier partial
+   form c03_discovery_statement is kept below): the conclusion clauses
    of c03_moving_lib_roots_statement against the holding reference fcd_step, the root of the consumer being the LIB the
    stream itself names (root_lib LNone = the cursor LIB of the first delivered event) *)
 Definition c03_discovery_full : Prop :=
@@ -105,7 +106,7 @@ Fixpoint c03d_run (cfg : config) (seen : list block) (h : list block) (t : trace
   | _, _, _ => False
   end.
 
-(* partial: relative to c03_discovery_full it does not say that the establishing call and its LIB block are the ones the
+(* the earlier partial form (W2; c03_discovery_full above is now proved): relative to c03_discovery_full it does not say that the establishing call and its LIB block are the ones the
    holding reference fcd_step picks (the call is read off the run: the first one that delivers something; that its LIB
    block is b itself or a lower block received before is proved, that it sits at the number b declares is not), and the
    retention and noise-deletion clauses are not proved across the discovery *)
